@@ -158,7 +158,7 @@ pub fn c09_aliased_list_equal_iff_elements_equal() {
 
 /// the same for maps: a map is equal to an alias of itself exactly when its value is equal to itself
 #[cfg_attr(kani, kani::proof)]
-#[cfg_attr(kani, kani::unwind(4))]
+#[cfg_attr(kani, kani::unwind(12))]
 #[cfg_attr(kani, kani::stub(std::collections::hash_map::RandomState::new, crate::conv::fixed_random_state))]
 pub fn c09_aliased_map_equal_iff_values_equal() {
     let f: f64 = any();
